@@ -167,49 +167,94 @@ def _b(x: bool) -> str:
     return 'true' if x else 'false'
 
 
+FOREIGN = {'Exception': 0, 'UserWarning': 1, 'DeprecationWarning': 2}
+ANCHORS = [  # field of Core/Roar.lean::Anchors, table, class name
+    ('exception', 'exc', 'BeartypeException'), ('callException', 'exc', 'BeartypeCallException'),
+    ('decorException', 'exc', 'BeartypeDecorException'), ('hintViolation', 'exc', 'BeartypeHintViolation'),
+    ('decorHintViolation', 'exc', 'BeartypeDecorHintViolation'), ('callHintViolation', 'exc', 'BeartypeCallHintViolation'),
+    ('doorHintViolation', 'exc', 'BeartypeDoorHintViolation'), ('doorException', 'exc', 'BeartypeDoorException'),
+    ('valeException', 'exc', 'BeartypeValeException'), ('confException', 'exc', 'BeartypeConfException'),
+    ('decorHintException', 'exc', 'BeartypeDecorHintException'), ('callHintException', 'exc', 'BeartypeCallHintException'),
+    ('nonpep', 'exc', 'BeartypeDecorHintNonpepException'), ('pepUnsupported', 'exc', 'BeartypeDecorHintPepUnsupportedException'),
+    ('pep484', 'exc', 'BeartypeDecorHintPep484Exception'), ('mixin', 'exc', '_BeartypeHintForwardRefExceptionMixin'),
+    ('warning', 'warn', 'BeartypeWarning')]
+
+
 def _table(rows, names):
     idx = {n: i for i, n in enumerate(names)}
     lines = []
-    for n, bases, exp in rows:
+    anc: list[list[int]] = []
+    for i, (n, bases, exp) in enumerate(rows):
         own = [idx[b] for b in bases if b in idx]
-        foreign = [b for b in bases if b not in idx and b not in ('metaclass=_ABCMeta',)]
-        lines.append(f'  ⟨{_s(n)}, [{", ".join(map(str, own))}], [{", ".join(_s(b) for b in foreign)}], {_b(exp)}⟩')
+        foreign = [FOREIGN.get(b, 9) for b in bases if b not in idx]
+        a = [i]
+        for b in own:                      # closure certificate (checked by Table.wf in Lean)
+            for x in (anc[b] if b < i else [b]):
+                if x not in a:
+                    a.append(x)
+        anc.append(a)
+        lines.append(f'  ⟨{_s(n)}, {ord(n[0])}, [{", ".join(map(str, own))}], [{", ".join(map(str, foreign))}], {_b(exp)}, '
+                     f'[{", ".join(map(str, a))}]⟩')
     return '[\n' + ',\n'.join(lines) + ']'
+
+
+def _opt(i):
+    return 'none' if i is None else f'(some {i})'
 
 
 def extract():
     exc, wrn = hierarchy()
     enames = [n for n, _, _ in exc]
     wnames = [n for n, _, _ in wrn]
+    eidx = {n: i for i, n in enumerate(enames)}
+    widx = {n: i for i, n in enumerate(wnames)}
     raises, warns, kws, uses, handlers = sites(set(enames) | set(wnames))
     door = door_documented()
+
+    def raised(name, kind, default):
+        if kind == 'roar':
+            return f'.roar {eidx[name]}' if name in eidx else '.other'
+        if kind == 'param':
+            return '.param none' if default == '' else (f'.param (some {eidx[default]})' if default in eidx else '.paramForeign')
+        return '.' + kind
+
+    def warned(name):
+        if name in widx:
+            return f'.warn {widx[name]}'
+        return {'warning_cls': '.param', 'DeprecationWarning': '.deprecation'}.get(name, '.other')
+
+    anchors = ', '.join(f'{fld} := {(eidx if tbl == "exc" else widx).get(name, len(exc) + len(wrn))}' for fld, tbl, name in ANCHORS)
     text = ['import BearVerif.Core.Roar',
             '/- GENERATED on every run by harness/extract/roar.py from beartype/roar/_roarexc.py, _roarwarn.py, __init__.py',
             '   and an AST scan of every `raise`/`warn` statement under beartype/. Do not edit. -/',
             'namespace BearVerif.Extracted', 'open BearVerif.Roar', '',
-            '/-- exception classes: name, bases inside the table (indices), foreign bases, re-exported by beartype.roar -/',
+            '/-- exception classes: name, first character, bases inside the table (indices), foreign bases (0 Exception,',
+            '    1 UserWarning, 2 DeprecationWarning, 9 other), re-exported by beartype.roar, ancestor certificate -/',
             'def roarExc : Table := ' + _table(exc, enames), '',
             'def roarWarn : Table := ' + _table(wrn, wnames), '',
-            '/-- `raise X(…)` statements: file, function, class, how named, default of the class parameter, inside a',
-            '    try whose handler calls reraise_exception_placeholder, message mentions EXCEPTION_PLACEHOLDER -/',
+            '/-- indices of the classes the theorems name (`C11_anchors` ties them to the names) -/',
+            'def roarAnchors : Anchors := { ' + anchors + ' }', '',
+            'def roarAnchorNames : List String := [' + ', '.join(_s(n) for _, _, n in ANCHORS) + ']', '',
+            '/-- `raise X(…)` statements: file, function, class as written, what it denotes, inside a try whose handler',
+            '    calls reraise_exception_placeholder, message mentions EXCEPTION_PLACEHOLDER -/',
             'def roarRaiseSites : List RaiseSite := [']
     text.append(',\n'.join(
-        f'  ⟨{_s(f)}, {_s(fn)}, {_s(c)}, .{k}, {_s(d)}, {_b(w)}, {_b(ph)}⟩' for f, fn, c, k, d, w, ph, _ in raises) + ']')
-    text += ['', '/-- warnings issued with a literally named class: file, function, class -/',
-             'def roarWarnSites : List (String × String × String) := [' +
-             ', '.join(f'({_s(f)}, {_s(fn)}, {_s(c)})' for f, fn, c, _ in warns) + ']', '',
-             '/-- explicit `exception_cls=X` keywords: file, function, callee, class -/',
-             'def roarExcKeywords : List (String × String × String × String) := [' +
-             ',\n  '.join(f'({_s(f)}, {_s(fn)}, {_s(cal)}, {_s(c)})' for f, fn, cal, c, _ in kws) + ']', '',
+        f'  ⟨{_s(f)}, {_s(fn)}, {_s(c)}, {raised(c, k, d)}, {_b(w)}, {_b(ph)}⟩' for f, fn, c, k, d, w, ph, _ in raises) + ']')
+    text += ['', '/-- warnings issued with a literally named class: file, function, class as written, what it denotes -/',
+             'def roarWarnSites : List (String × String × String × Warned) := [' +
+             ',\n  '.join(f'({_s(f)}, {_s(fn)}, {_s(c)}, {warned(c)})' for f, fn, c, _ in warns) + ']', '',
+             '/-- explicit `exception_cls=X` keywords: file, function, callee, class as written, its index -/',
+             'def roarExcKeywords : List (String × String × String × String × Option Nat) := [' +
+             ',\n  '.join(f'({_s(f)}, {_s(fn)}, {_s(cal)}, {_s(c)}, {_opt(eidx.get(c))})' for f, fn, cal, c, _ in kws) + ']', '',
              '/-- executed mentions of EXCEPTION_PLACEHOLDER: file, function, lexically under a reraise handler -/',
              'def roarPlaceholderUses : List (String × String × Bool) := [' +
              ',\n  '.join(f'({_s(f)}, {_s(fn)}, {_b(w)})' for f, fn, w, _ in uses) + ']', '',
              '/-- functions owning an `except … : reraise_exception_placeholder(…)` handler -/',
              'def roarReraiseHandlers : List (String × String) := [' +
              ', '.join(f'({_s(f)}, {_s(fn)})' for f, fn in handlers) + ']', '',
-             '/-- classes documented in the `Raises` sections of the door functions -/',
-             'def roarDoorDocumented : List (String × List String) := [' +
-             ', '.join(f'({_s(k)}, [{", ".join(_s(c) for c in v)}])' for k, v in sorted(door.items())) + ']', '',
+             '/-- classes documented in the `Raises` sections of the door functions (function, class, its index) -/',
+             'def roarDoorDocumented : List (String × String × Option Nat) := [' +
+             ', '.join(f'({_s(k)}, {_s(c)}, {_opt(eidx.get(c))})' for k, v in sorted(door.items()) for c in v) + ']', '',
              'end BearVerif.Extracted', '']
     write_if_changed(LEAN / 'BearVerif/Extracted/Roar.lean', '\n'.join(text))
     return {'exc': exc, 'warn': wrn, 'raises': raises, 'warns': warns, 'kws': kws, 'door': door, 'uses': uses, 'handlers': handlers}
